@@ -262,6 +262,20 @@ class Gen:
         return "DIM " + ",".join(items)
 
     # ---- whole program
+    def forest_program(self):
+        """Dozens to hundreds of FOR statements that are never closed (indentation levels and
+        per-process high-water marks), sometimes followed by a tiny FOR/NEXT one-liner."""
+        r = self.r
+        n = r.choice((10, 63, 64, 65, 70, 130, 260))
+        out = ["%d FOR %s=1 TO 2" % (10 + i, r.choice(("I", "J", "K", "N", "X"))) for i in range(n)]
+        return "\n".join(out) + "\n"
+
+    def huge_literal_program(self):
+        """A numeric literal of thousands of digits in an expression (never as a line number or
+        a DIM size, which the unchanged tool already parses with int())."""
+        r = self.r
+        return "10 A=%s\n20 PRINT A\n" % (r.choice("123456789") * r.choice((400, 4300, 5000)))
+
     def deep_program(self):
         """One assignment whose right-hand side is nested far beyond what the bounded
         expression generator reaches (recursion-depth territory of the PEG parser)."""
@@ -278,8 +292,16 @@ class Gen:
 
     def program(self, flavour=None, refuse=None):
         r = self.r
-        if flavour is None and refuse is None and r.random() < 0.05:
-            return self.deep_program()
+        if flavour is None and refuse is None:
+            c0 = r.random()
+            if c0 < 0.05:
+                return self.deep_program()
+            if c0 < 0.08:
+                return self.forest_program()
+            if c0 < 0.095:
+                return self.huge_literal_program()
+            if c0 < 0.12:
+                return "10 FOR%s=1TO2:NEXT%s\n" % ((r.choice("IJK"),) * 2)
         flavour = flavour or r.choice(("arrays", "strings", "devices", "jumps", "data", "mixed", "mixed"))
         # DATA-heavy programs come with and without empty items (an empty item switches on a
         # rewriting pass over every DATA literal of the program)
